@@ -334,7 +334,7 @@ func runC11(c *core.Ctx) core.Meta {
 	}
 	// needFlushing uses the predicate with (buffer start, buffer end, copy start, copy end) and requires dirtiness
 	if fn := c.MustFunc("R11.1", driverPkg, "defaultMemoryCopyMiddleware.needFlushing"); fn != nil {
-		g := core.BuildGraph(fn, 0, nil)
+		g := core.BuildGraph(fn, 3, func(cal *ssa.Function) bool { return cal.Pkg == fn.Pkg })
 		st1.Instances++
 		found := false
 		for _, n := range g.Nodes {
@@ -351,6 +351,15 @@ func runC11(c *core.Ctx) core.Meta {
 				st1.Sample("needFlushing: memRangeOverlap(%s)", strings.Join(a, ", "))
 				if !ok {
 					c.ReportAt("R11.1", fn, n.Instr.Pos(), "needFlushing:args", "the overlap test is not (buffer start, buffer start+size, copy start, copy start+size): "+strings.Join(a, ", "))
+				}
+				// a buffer can have been allocated through any context of the process
+				// (InitWithExistingPID): the buffers examined are those of the driver's
+				// contexts with the copy's process ID, not only the copying context's
+				st1.Instances++
+				okAll := len(a) == 4 && strings.Contains(a[0], ".contexts[")
+				st1.Ob(okAll)
+				if !okAll {
+					c.ReportAt("R11.1", fn, n.Instr.Pos(), "needFlushing:single-context", "needFlushing examines only the buffers of the copying context ("+short(a[0])+"): a buffer allocated through another context of the same process (InitWithExistingPID) and written by a kernel is copied without a flush")
 				}
 			}
 		}
@@ -372,10 +381,27 @@ func runC11(c *core.Ctx) core.Meta {
 			if !ok {
 				continue
 			}
+			// the dirty test itself, or a test of the result of a helper that
+			// contains it (needFlushing -> per-context helper)
+			isDirtyTest := false
 			if f := core.LoadedField(ifi.Cond); f != nil && f.Name() == "l2Dirty" {
+				isDirtyTest = true
+			}
+			if call, ok := ifi.Cond.(*ssa.Call); ok {
+				if cal := call.Call.StaticCallee(); cal != nil && cal.Pkg == fn.Pkg {
+					for _, b2 := range cal.Blocks {
+						for _, i2 := range b2.Instrs {
+							if fa, ok := i2.(*ssa.FieldAddr); ok && core.FieldOfAddr(fa) != nil && core.FieldOfAddr(fa).Name() == "l2Dirty" {
+								isDirtyTest = true
+							}
+						}
+					}
+				}
+			}
+			if isDirtyTest {
 				g.Walk([]core.State{{N: n.Succs[0]}}, core.WalkOpts{ForwardOnly: true}, func(s core.State) {
-					if r, ok := s.N.Instr.(*ssa.Return); ok {
-						if b, isC := core.ConstBool(r.Results[0]); !isC || !b {
+					if r, ok := s.N.Instr.(*ssa.Return); ok && s.N.Frame == n.Frame {
+						if b, isC := returnedConstBool(r); !isC || !b {
 							okTrue = false
 						}
 					}
@@ -876,12 +902,34 @@ func runC11(c *core.Ctx) core.Meta {
 		if core.IsCall(in, core.ModPath+"/amd/protocol.NewLaunchKernelReq") {
 			st6.Instances++
 			marks := false
-			for _, b := range fn.Blocks {
-				for _, i2 := range b.Instrs {
-					if callsFunc(i2, pd.Pkg, "Context.markAllBuffersDirty") {
-						marks = true
+			allCtx := false
+			g6 := core.BuildGraph(fn, 3, func(cal *ssa.Function) bool { return cal.Pkg == fn.Pkg })
+			for _, n := range g6.Nodes {
+				if callsFunc(n.Instr, pd.Pkg, "Context.markAllBuffersDirty") {
+					marks = true
+					// the contexts marked are those of the driver's list with the
+					// launching process's ID (pid equality dominates the call)
+					rp := prov.Of(core.CallOf(n.Instr).Args[0])
+					pidCut := CmpCut(func(_ *core.Node, op token.Token, x, y ssa.Value) int {
+						if strings.HasSuffix(prov.Of(x), ".pid") && strings.HasSuffix(prov.Of(y), ".pid") {
+							switch op {
+							case token.EQL:
+								return 1
+							case token.NEQ:
+								return -1
+							}
+						}
+						return 0
+					})
+					if strings.Contains(rp, ".contexts[") && g6.Guarded(n, pidCut) {
+						allCtx = true
 					}
 				}
+			}
+			st6.Instances++
+			st6.Ob(!marks || allCtx)
+			if marks && !allCtx {
+				c.ReportAt("R11.6", fn, in.Pos(), "dirty-mark-single-context", "the kernel launch marks only the launching context's buffers dirty: a buffer allocated through another context of the same process (InitWithExistingPID) and written by this kernel is later copied to the host without a flush")
 			}
 			st6.Ob(marks)
 			st6.Sample("%s: kernel launch marks all buffers dirty: %v", core.FuncName(fn), marks)
@@ -1182,4 +1230,31 @@ func copySizeCut(prov *core.Prov, wantZero bool) EdgeCut {
 		}
 		return d
 	})
+}
+
+// returnedConstBool resolves the boolean a return yields, including the form
+// go/ssa gives functions with a defer: the result is spilled to a local cell
+// (`*t0 = true; rundefers; t = *t0; return t`).
+func returnedConstBool(r *ssa.Return) (val, ok bool) {
+	if len(r.Results) != 1 {
+		return false, false
+	}
+	if b, isC := core.ConstBool(r.Results[0]); isC {
+		return b, true
+	}
+	ld, isLoad := r.Results[0].(*ssa.UnOp)
+	if !isLoad || ld.Op != token.MUL {
+		return false, false
+	}
+	cell, isAlloc := ld.X.(*ssa.Alloc)
+	if !isAlloc {
+		return false, false
+	}
+	instrs := r.Block().Instrs
+	for i := len(instrs) - 1; i >= 0; i-- {
+		if st, isStore := instrs[i].(*ssa.Store); isStore && st.Addr == ssa.Value(cell) {
+			return core.ConstBool(st.Val)
+		}
+	}
+	return false, false
 }
